@@ -7,6 +7,12 @@ BASE_NOTE = ("Trusted: Coq 8.16.1 kernel (no native_compute; vm_compute only in 
              "(Print Assumptions parsed every run; theorems at R would add the 3 stdlib real axioms); ExtrOcamlBasic extraction with Z/Q/Qc kept as datatypes + a Zarith I/O driver; "
              "the Python correspondence harness and its tolerances; JAX/NumPy primitives are modelled by contracts (rfftn/irfftn = DFT half-spectrum, scan = fold, exp). ")
 CLAIMED = {
+ "C20": dict(text="Theorems (all shapes, all D/N/C, all flag combinations) that each rejection predicate is true exactly on the documented-invalid inputs: stepper / repeated-stepper "
+                  "calls accept iff shape = (C, N,...,N); Poisson iff trailing axes = (N,)*D; operator parity; dimension-restricted steppers and nonlinear terms; channel guards; "
+                  "option validation of generators/metrics; stack_sub guards. The predicates (Gen/Guards.v) are re-translated from /repo's `if ...: raise` guards on every run and "
+                  "compared (extracted) with raise/no-raise of the real code over every exported stepper class x D x malformed shapes.",
+             note="Only shapes and flags are modelled (array contents are irrelevant to the guards); IndexError on rank-0 inputs is not modelled. Registry of classes is enumerated from the package exports at run time.",
+             technique="Rocq proof (iff characterisation of guard predicates) on an AST-translated model + exhaustive raise/no-raise correspondence", design="§4 C20"),
  "C02": dict(text="Theorems over ANY field of characteristic 0 (so: real, imaginary, complex, arbitrarily stiff z != 0): every ETDRK coefficient integrand of the code equals the "
                   "Cox-Matthews phi-function expression, each step_fourier stage program equals the ETD1/ETD2RK/ETD3RK/ETD4RK tableau applied to an arbitrary extensional nonlinear term, "
                   "order 0 is the linear propagation, order dispatch, no .real truncation, half-shifted contour, stiff order conditions. The subject (Gen/ETDRK.v) is re-translated from "
